@@ -25,7 +25,9 @@ def _frames(family, which):
     from . import datasets as ds
 
     seed = {"A": 0, "B": 5, "C": 9}[which]
-    if family in ("daily", "daily_legacy", "billing"):
+    if family in ("daily", "daily_legacy", "billing", "daily_spiky"):
+        if family == "daily_spiky":
+            return ds.daily_frame(start="2021-01-01", days=365, tz=ZONE, wseed=seed, seed=seed, noise=0.05, spikes=6)
         return ds.daily_frame(start="2021-01-01", days=365, tz=ZONE, wseed=seed, seed=seed, noise=0.05, weekend_factor=1.2)
     return ds.hourly_frame(start="2021-01-01", days=365, tz=ZONE, wseed=seed, seed=seed, solar=family == "hourly_solar")
 
@@ -35,7 +37,7 @@ def do_fit(family, which):
     from . import datasets as ds, fingerprint as F
 
     fr = _frames(family, which)
-    if family == "daily":
+    if family in ("daily", "daily_spiky"):
         m = em.DailyModel().fit(em.DailyBaselineData(fr, is_electricity_data=True))
         rep = em.DailyReportingData(ds.daily_frame(start="2022-01-01", days=120, tz=ZONE, wseed=3, seed=3), is_electricity_data=True)
     elif family == "daily_legacy":
@@ -45,8 +47,16 @@ def do_fit(family, which):
         m = em.BillingModel().fit(em.BillingBaselineData.from_series(ds.billing_reads(fr["observed"]), fr["temperature"], is_electricity_data=True))
         rep = em.BillingReportingData.from_series(None, ds.daily_frame(start="2022-01-01", days=120, tz=ZONE, wseed=3, seed=3)["temperature"],
                                                   is_electricity_data=True)
-    elif family in ("hourly", "hourly_solar"):
-        m = em.HourlyModel(settings={"seed": 7}).fit(em.HourlyBaselineData(fr, is_electricity_data=True))
+    elif family in ("hourly", "hourly_solar", "hourly_seed0", "hourly_late"):
+        m = em.HourlyModel(settings={"seed": 0 if family == "hourly_seed0" else 7})
+        if family == "hourly_late":
+            # the model is BUILT first, other hourly models/settings objects with other seeds are built in between, then it is fitted
+            em.HourlyModel(settings={"seed": 99})
+            em.HourlyModel()
+            from opendsm.eemeter.models.hourly import settings as hs
+
+            hs.HourlySolarSettings(seed=5)
+        m = m.fit(em.HourlyBaselineData(fr, is_electricity_data=True))
         rep = em.HourlyReportingData(ds.hourly_frame(start="2022-02-01", days=60, tz=ZONE, wseed=3, seed=3, solar=family == "hourly_solar"),
                                      is_electricity_data=True)
     elif family == "caltrack":
@@ -80,6 +90,15 @@ def run_op(op):
         fr = _frames("hourly", "C")
         m = em.HourlyModel().fit(em.HourlyBaselineData(fr, is_electricity_data=True))
         m.to_json()
+        return {"unchecked": True}
+    if op == "fit_devalpha:daily":
+        # a developer-mode fit with non-default loss settings (unchecked itself): must not leave anything behind - in this
+        # process or in the shared JIT cache - that changes later default fits
+        import opendsm.eemeter as em
+
+        fr = _frames("daily_spiky", "C")
+        em.DailyModel(settings={"developer_mode": True, "silent_developer_mode": True, "alpha_minimum": -1e9, "alpha_selection": 1.0,
+                                "regularization_alpha": 0.01}).fit(em.DailyBaselineData(fr, is_electricity_data=True), ignore_disqualification=True)
         return {"unchecked": True}
     if op == "np:seed0":
         np.random.seed(0)
